@@ -16,7 +16,7 @@ def main():
     # whole-library halves: the scheduler-level machine (C01, C02, C04, C12) and the spin lock / sleep
     # queue (every protocol model that treats a spin-locked region as one step and the queue as a list)
     ATTACH = {"C01": ["machine"], "C03": ["machine"], "C02": ["machine"], "C04": ["machine", "spin", "compose"], "C12": ["machine"],
-              "C05": ["spin"], "C06": ["compose"], "C07": ["spin", "compose"], "C08": ["compose"], "C09": ["spin"],
+              "C05": ["spin", "compose"], "C06": ["compose"], "C07": ["spin", "compose"], "C08": ["compose"], "C09": ["spin", "compose"],
               "C16": ["spin"]}
     if not a.replay:
         for m in ATTACH.get(a.prop, []):
